@@ -600,12 +600,18 @@ func (s *Snapshot) Decode(buf []byte, r io.Reader) error {
 // When snapshots are shared by multiple threads, each thread should Open the
 // snapshot. This API internally tracks the reference count for the snapshot.
 func (s *Snapshot) Open() bool {
-	if atomic.LoadInt32(&s.refCount) == 0 {
-		return false
+	// The reference count must never leave zero: once the last reference is
+	// dropped the snapshot is retired for collection.
+	for {
+		refCount := atomic.LoadInt32(&s.refCount)
+		if refCount == 0 {
+			return false
+		}
+		vyield(SiteOpenInc)
+		if atomic.CompareAndSwapInt32(&s.refCount, refCount, refCount+1) {
+			return true
+		}
 	}
-	vyield(SiteOpenInc)
-	atomic.AddInt32(&s.refCount, 1)
-	return true
 }
 
 // Close is the snapshot descructor
